@@ -171,7 +171,7 @@ class Pressure(Job):
 
 
 def jobs(tier):
-    N = 4 if tier == "quick" else 7
+    N = 4 if tier == "quick" else 8
     out = []
     for n in range(0, N + 1):
         for has_s, has_f in ((True, True), (True, False), (False, True), (False, False)):
@@ -196,11 +196,11 @@ ASSUMPTIONS = ["numpy.ma environment model validated per path against numpy 1.26
 
 
 def bounds(tier):
-    return {"profile_length": "0..4" if tier == "quick" else "0..7", "thresholds": "each present/absent, any real value",
+    return {"profile_length": "0..4" if tier == "quick" else "0..8", "thresholds": "each present/absent, any real value",
             "missing": "independent NaN flags on density and depth", "mirror_law_length": "2..4" if tier == "quick" else "2..6"}
 
 
 LEVEL_TEXT = ("bounded symbolic model checking of the real density_inversion_test / pressure_increasing_test source; the mirror "
               "law is decided between two symbolic executions (profile and reversed profile)")
-LEVEL_NOTE = "bounds: n<=4/6, grid G; numpy.ma environment model validated by per-path witnesses"
+LEVEL_NOTE = "bounds: n<=4/8, grid G; numpy.ma environment model validated by per-path witnesses"
 TECHNIQUE = "symbolic execution of the real Python source over a modelled numpy + z3 (SMT, QF_LRA)"
